@@ -168,6 +168,11 @@ def oracle(run, corr, deep, prop, profiles, n_quick, n_thorough, extra_lines=())
     n = run.scale(n_quick, n_thorough) * (4 if deep else 1)
     g = worldgen.Gen(random.Random(run.seed * 7919 + 13), train(run), clean=True)
     lines = list(extra_lines)
+    # corpus first: histories on which the judge itself (or the code) once went wrong
+    cdir = os.path.join(vf.ROOT, "corpus", "world")
+    if os.path.isdir(cdir):
+        for fn in sorted(os.listdir(cdir)):
+            lines += [l.strip() for l in open(os.path.join(cdir, fn)) if l.startswith("world.run")]
     for k in range(n):
         lines.append(g.history(run.rng.choice([10, 25, 50]), profiles[k % len(profiles)]))
     worldspec.STATS.clear()
